@@ -34,6 +34,16 @@ fn child() {
         "test_benches" => divan::Divan::from_args().test_benches(),
         // the builder's `threads` with an empty list: still one run per case
         "main_threads_empty" => divan::Divan::from_args().threads(std::iter::empty::<usize>()).main(),
+        // the case's thread counts through the builder instead of --threads
+        "main_threads_cfg" => {
+            let t: Vec<usize> = std::env::var("HX_THREADS")
+                .unwrap_or_default()
+                .split(',')
+                .filter(|s| !s.is_empty())
+                .map(|s| s.parse().expect("HX_THREADS"))
+                .collect();
+            divan::Divan::from_args().threads(t).main()
+        }
         other => panic!("HX_API {other}"),
     });
     let _ = std::io::stdout().flush();
@@ -56,6 +66,8 @@ struct ChildOut {
 thread_local! {
     /// The executable the current case runs (None: this binary with the synthetic registry).
     static EXE: std::cell::RefCell<Option<String>> = const { std::cell::RefCell::new(None) };
+    /// The run-time thread counts of the current case.
+    static THREADS: std::cell::RefCell<Vec<usize>> = const { std::cell::RefCell::new(Vec::new()) };
 }
 
 fn run_child(line: &str, api: &str, nextest: bool, args: &[String]) -> ChildOut {
@@ -69,6 +81,7 @@ fn run_child(line: &str, api: &str, nextest: bool, args: &[String]) -> ChildOut 
         .env("HX_CHILD", "1")
         .env("HX_SPEC", line)
         .env("HX_API", api)
+        .env("HX_THREADS", THREADS.with(|t| t.borrow().iter().map(|n| n.to_string()).collect::<Vec<_>>().join(",")))
         .env_remove("NEXTEST")
         .stdin(Stdio::null())
         .stdout(Stdio::piped())
@@ -184,6 +197,8 @@ fn canon_tree(out: &ChildOut, pair_calls: bool) -> String {
     let calls: Vec<&String> = out.log.iter().filter(|e| e.starts_with('C')).collect();
     let enters = out.log.iter().filter(|e| e.starts_with('E')).count();
     let mut k = 0;
+    let mut leaves = 0;
+    let threads = THREADS.with(|t| t.borrow().clone());
     let mut items = Vec::new();
     for (i, n) in nodes.iter().enumerate() {
         stack.truncate(n.depth);
@@ -195,8 +210,17 @@ fn canon_tree(out: &ChildOut, pair_calls: bool) -> String {
         } else if n.ignored {
             items.push(format!("I:{}", enc(&path)));
         } else if pair_calls {
-            let call = calls.get(k).map(|s| s.as_str()).unwrap_or("NOCALL");
-            k += 1;
+            // a leaf run on N threads calls the function N times: "t=N" leaves under thread branches,
+            // every leaf when a single thread count N is configured
+            let times = match n.name.strip_prefix("t=").and_then(|d| d.parse::<usize>().ok()) {
+                Some(t) if threads.len() > 1 => t,
+                _ if threads.len() == 1 => threads[0],
+                _ => 1,
+            };
+            let mine: Vec<&str> = (0..times).map(|j| calls.get(k + j).map(|s| s.as_str()).unwrap_or("NOCALL")).collect();
+            k += times;
+            leaves += 1;
+            let call = if mine.iter().all(|c| *c == mine[0]) { mine[0].to_string() } else { format!("MIXED({})", mine.join("+")) };
             items.push(format!("X:{}={}", enc(&path), call));
         } else {
             items.push(format!("X:{}", enc(&path)));
@@ -207,8 +231,8 @@ fn canon_tree(out: &ChildOut, pair_calls: bool) -> String {
     let mut s = items.join(";");
     if pair_calls {
         // (functions without a Bencher parameter have no "enter" event in real crates)
-        if k != calls.len() || (!real && enters != calls.len()) {
-            s.push_str(&format!(";MISMATCH leaves={k} calls={} enters={enters}", calls.len()));
+        if k != calls.len() || (!real && enters != leaves) {
+            s.push_str(&format!(";MISMATCH leaves={leaves} expected-calls={k} calls={} enters={enters}", calls.len()));
         }
         s.push_str(&format!("!{}", out.made));
     } else {
@@ -253,6 +277,9 @@ fn cli_args(sp: &Spec, extra_pos: Option<&[String]>, force_exact: bool) -> Vec<S
         'L' => a.extend(["--sortr".into(), "location".into()]),
         _ => {}
     }
+    if !c.threads.is_empty() && !builder_threads() {
+        a.push(format!("--threads={}", c.threads.iter().map(|n| n.to_string()).collect::<Vec<_>>().join(",")));
+    }
     let exact = c.exact || force_exact;
     let pat = |s: &String| if exact { s.clone() } else { regex_escape(s) };
     for s in &c.skip {
@@ -278,6 +305,14 @@ fn regex_escape(s: &str) -> String {
         o.push(c);
     }
     o
+}
+
+thread_local! {
+    /// Set while an act passes the thread counts through the builder (no --threads on the command line).
+    static BUILDER_THREADS: std::cell::Cell<bool> = const { std::cell::Cell::new(false) };
+}
+fn builder_threads() -> bool {
+    BUILDER_THREADS.with(|b| b.get())
 }
 
 fn with(mut a: Vec<String>, front: &[&str]) -> Vec<String> {
@@ -308,6 +343,7 @@ fn run_case(line: &str) -> String {
         }
     }
     EXE.with(|e| *e.borrow_mut() = sp.cfg.exe.clone());
+    THREADS.with(|t| *t.borrow_mut() = sp.cfg.threads.clone());
     let mut out = Vec::new();
     let mut terse_lines: Option<Vec<String>> = None;
     for act in sp.cfg.acts.chars() {
@@ -330,6 +366,13 @@ fn run_case(line: &str) -> String {
             ),
             'L' => canon_tree(&run_child(line, "main", false, &with(cli_args(&sp, None, false), &["--list"])), false),
             'K' => String::new(),
+            // test run with the case's thread counts set through `Divan::threads`
+            'p' => {
+                BUILDER_THREADS.with(|b| b.set(true));
+                let args = with(cli_args(&sp, None, false), &["--test"]);
+                BUILDER_THREADS.with(|b| b.set(false));
+                canon_tree(&run_child(line, "main_threads_cfg", false, &args), true)
+            }
             // test run / terse listing with `Divan::threads([])` set through the builder
             'm' => canon_tree(&run_child(line, "main_threads_empty", false, &with(cli_args(&sp, None, false), &["--test"])), true),
             'n' => canon_terse(&run_child(line, "main_threads_empty", true, &with(cli_args(&sp, None, false), &["--list", "--format", "terse"]))),
